@@ -30,13 +30,14 @@ omit hwf hmat in
 theorem genReach_null : ∀ p, GenReach K root p → isInCheck p p.side = false → GenReach K root (makeNull K p).1 :=
   fun _ hp hc => GenReach.null hp hc
 
-/-- C15 on the class: `|eval| ≤ 15145` -/
-theorem genReach_eval (p : Pos) (hp : GenReach K root p) (v : Int) (hv : evalRaw p = some v) : -15145 ≤ v ∧ v ≤ 15145 :=
+/-- C15 on the class: `|eval| ≤ evalBound` -/
+theorem genReach_eval (p : Pos) (hp : GenReach K root p) (v : Int) (hv : evalRaw p = some v) : -evalBound ≤ v ∧ v ≤ evalBound :=
   eval_bounded_explicit p (genReach_inv K root hwf hmat p hp).2 v hv
 
 theorem genReach_evalRange : ∀ p v, GenReach K root p → evalRaw p = some v → EvalRange v := by
   intro p v hp hv
   have := genReach_eval K root hwf hmat p hp v hv
+  have := evalBound_le_20000
   unfold EvalRange; omega
 
 theorem genReach_evalMate : ∀ p v, GenReach K root p → evalRaw p = some v → -(INF - 100) < v ∧ v < INF - 100 :=
